@@ -47,6 +47,8 @@ QUICK_TABLE = [
     ('ekf_imu', {'frame': 'NED'}, 600, 0.05),
     ('ekf_marg', {'frame': 'NED'}, 900, 0.1),
     ('ekf_marg', {'frame': 'ENU'}, 900, 0.1),
+    ('ekf_imu', {'frame': 'NED', 'noises': [0.09, 0.0025, 0.0025]}, 600, 0.05),      # accurate accelerometer and magnetometer: small R, large gain
+    ('ekf_marg', {'frame': 'NED', 'noises': [0.09, 0.0025, 0.0025]}, 900, 0.1),
     ('ukf', {}, 400, 0.05),
     ('aqua_imu', {'alpha': 0.1, 'beta': 0.1}, 300, 1e-3),
     ('aqua_marg', {'alpha': 0.1, 'beta': 0.1}, 300, 1e-3),
